@@ -157,6 +157,52 @@ theorem claim_eq_sum (P : Power.Params) (env : Env) (m : Nat) (ops : List Op) :
       rw [hn, activePower_step]
       simp
 
+/-- the same side-by-side run with the sector table following replace_sectors -/
+def jointRunT (P : Power.Params) (m : Nat) :
+    Env → Partition → Power.State → List Op → Option (Env × Partition × Power.State)
+  | env, p, s, [] => some (env, p, s)
+  | env, p, s, op :: rest =>
+    let d := powerDelta op (step env p op).2
+    match Power.updateClaimedPower P s m true d.raw d.qa with
+    | .ok s' => jointRunT P m (stepT env p op).1 (stepT env p op).2 s' rest
+    | .error _ => none
+
+/-- **claim_eq_recomputed.** A miner whose (single) partition starts empty with a zero claim: after
+    any sequence of the twelve partition methods (`RunOK`), every delta forwarded and accepted, the
+    power actor's claim for the miner equals the power RECOMPUTED from the sector table over the
+    sectors that are live, proven, and neither faulty nor recovering. -/
+theorem claim_eq_recomputed (P : Power.Params) (m : Nat) :
+    ∀ (ops : List Op) (env env' : Env) (p p' : Partition) (s s' : Power.State),
+    TableWF env.tbl → FullInv env.tbl p → RunOK env p ops →
+    alookup m s.claims = some { raw := p.activePower.raw, qa := p.activePower.qa } →
+    jointRunT P m env p s ops = some (env', p', s') →
+    alookup m s'.claims = some { raw := (Spec.activePower env'.tbl p'.abs).raw,
+                                 qa := (Spec.activePower env'.tbl p'.abs).qa } := by
+  intro ops
+  induction ops with
+  | nil =>
+    intro env env' p p' s s' _ hf _ h0 h
+    simp only [jointRunT, Option.some.injEq, Prod.mk.injEq] at h
+    obtain ⟨rfl, rfl, rfl⟩ := h
+    rw [← (memo_eq_spec hf.sets hf.memo).2.2.2.2]; exact h0
+  | cons op rest ih =>
+    intro env env' p p' s s' hw hf hok h0 h
+    obtain ⟨o1, o2⟩ := hok
+    simp only [jointRunT] at h
+    cases hu : Power.updateClaimedPower P s m true (powerDelta op (step env p op).2).raw
+        (powerDelta op (step env p op).2).qa with
+    | error e => simp [hu] at h
+    | ok s1 =>
+      simp only [hu] at h
+      obtain ⟨⟨old, ho, hn, _, _⟩, _⟩ := Power.update_claim_delta P s s1 m true _ _ hu
+      rw [h0] at ho
+      cases ho
+      obtain ⟨a, b⟩ := fullInv_stepT hw hf o1
+      apply ih _ _ _ _ _ _ a b o2 _ h
+      have : (stepT env p op).2 = (step env p op).1 := rfl
+      rw [hn, this, activePower_step]
+      simp
+
 /-- **totals_eq_claims.** In every reachable power-actor state `current_total_power` is
     (Σ raw, Σ qa) over ALL claims while fewer than 4 (= CONSENSUS_MINER_MIN_MINERS) claims have
     `raw ≥ minPower`, and over exactly the claims with `raw ≥ minPower` otherwise. -/
